@@ -54,7 +54,23 @@ def ser_block(fmt, b, intro_needed):
         L=[b[1], '='*len(b[1]), '', ser_inlines(fmt,b[2])]
     return L
 FIELDS_E = {'param':'@param a: {w}', 'return':'@return: {w}', 'raise':'@raise ValueError: {w}', 'note':'@note: {w}', 'see':'@see: {w}', 'author':'@author: {w}', 'since':'@since: {w}', 'keyword':'@keyword k: {w}', 'type':'@type a: {w}', 'rtype':'@rtype: {w}', 'unknown':'@foo: {w}', 'warns':'@warns: {w}', 'yield':'@yield: {w}'}
+NAP_FIELDS = {
+ 'google': {'param':'Args:\n    a: {w}', 'return':'Returns:\n    {w}', 'raise':'Raises:\n    ValueError: {w}', 'note':'Note:\n    {w}', 'see':'See Also:\n    {w}', 'keyword':'Keyword Args:\n    k: {w}', 'type':'Args:\n    a (int): {w}', 'rtype':'Returns:\n    int: {w}', 'warns':'Warns:\n    UserWarning: {w}', 'yield':'Yields:\n    {w}'},
+ 'numpy': {'param':'Parameters\n----------\na\n    {w}', 'return':'Returns\n-------\nint\n    {w}', 'raise':'Raises\n------\nValueError\n    {w}', 'note':'Notes\n-----\n{w}', 'see':'See Also\n--------\nfoo : {w}', 'keyword':'Other Parameters\n----------------\nk\n    {w}', 'type':'Parameters\n----------\na : int\n    {w}', 'rtype':'Returns\n-------\nint\n    {w}', 'warns':'Warns\n-----\nUserWarning\n    {w}', 'yield':'Yields\n------\nint\n    {w}'},
+}
 def serialize(fmt, blocks, field, w):
+    if fmt in NAP_FIELDS:
+        L=[]
+        for b in blocks:
+            if L: L.append('')
+            L+=ser_block('restructuredtext',b,False)
+        ftok=None
+        if field:
+            if field not in NAP_FIELDS[fmt]: return None,None
+            ftok=w(); L+=['',*NAP_FIELDS[fmt][field].format(w=ftok).split('\n')]
+        return '\n'.join(L), ftok
+    return _serialize(fmt, blocks, field, w)
+def _serialize(fmt, blocks, field, w):
     L=[]
     for b in blocks:
         if L: L.append('')
@@ -85,7 +101,7 @@ def mk(fmt):
     return s
 sig=collections.Counter(); ex={}; n=0
 maxb=int(sys.argv[1]) if len(sys.argv)>1 else 2
-for fmt in ('epytext','restructuredtext'):
+for fmt in (sys.argv[2].split(',') if len(sys.argv)>2 else ('epytext','restructuredtext')):
     s=mk(fmt); f=s.allobjects['m.f']
     for nb in range(1,maxb+1):
         for combo in itertools.product(BLOCKS, repeat=nb):
@@ -93,6 +109,7 @@ for fmt in ('epytext','restructuredtext'):
             for field in [None]+list(FIELDS_E):
                 w=W(); blocks=[BLOCKS[c](w) for c in combo]
                 doc,ftok=serialize(fmt,blocks,field,w)
+                if doc is None: continue
                 f.docstring=doc; f.parsed_docstring=None; f.parsed_summary=None
                 s.parse_errors.clear()
                 out=io.StringIO()
@@ -103,10 +120,12 @@ for fmt in ('epytext','restructuredtext'):
                 body_html, _, table = h.partition('<table class="fieldTable">')
                 text=html.unescape(re.sub(r'<[^>]+>','',body_html))
                 got=re.findall(r'w\d{4}',text); exp=expected_tokens(blocks)
+                if fmt in NAP_FIELDS and field in ('note','see') and ftok in got: got.remove(ftok); in_body=True
+                else: in_body=False
                 key=None
                 if 'bad docstring' in msgs: key=('parse-error', fmt, combo, msgs.strip().splitlines()[0][-60:])
                 elif got!=exp: key=('body-tokens', fmt, combo)
-                elif field and field!='unknown' and ftok not in html.unescape(re.sub(r'<[^>]+>','',table)): key=('field-lost', fmt, field)
+                elif field and field!='unknown' and not in_body and ftok not in html.unescape(re.sub(r'<[^>]+>','',table)): key=('field-lost', fmt, field)
                 else:
                     for b in blocks:
                         if b[0]=='literal':
